@@ -822,3 +822,60 @@ func VerifC10SharedLambda() {
 
 // thorough tier: three undesignated handlers, nested graph, streaming
 func VerifC10Par3NestedStream() { c10Parallel(3, true, true) }
+
+// a recorder that keeps errors apart from ordinary ends
+type c10RecE struct{ c10Rec }
+
+func (h *c10RecE) OnError(ctx context.Context, info *callbacks.RunInfo, err error) context.Context {
+	h.add("error", info)
+	return ctx
+}
+
+type c10PS struct{ N int }
+
+// User code that runs on the run loop itself (a state pre-handler, a branch condition) panics: the run fails, and the
+// graph's handlers hear one start and one error for the graph - not an ordinary end, and not nothing; Invoke and Stream.
+func VerifC10RunLoopPanic() {
+	ctx := context.Background()
+	vcfg("fifo", 1)
+	vcfg("selectfirst", 1)
+	var evs []c10Ev
+	where := vchoose("where", 2)
+	g := NewGraph[map[string]any, map[string]any](WithGenLocalState(func(ctx context.Context) *c10PS { return &c10PS{} }))
+	body := InvokableLambda(func(ctx context.Context, in map[string]any) (map[string]any, error) { return in, nil })
+	if where == 0 {
+		_ = g.AddLambdaNode("a", body, WithNodeName("A"), WithStatePreHandler(func(ctx context.Context, in map[string]any, s *c10PS) (map[string]any, error) {
+			panic("c10 pre-handler panic")
+		}))
+	} else {
+		_ = g.AddLambdaNode("a", body, WithNodeName("A"))
+	}
+	_ = g.AddLambdaNode("b", body, WithNodeName("B"))
+	_ = g.AddEdge(START, "a")
+	if where == 1 {
+		_ = g.AddBranch("a", NewGraphBranch(func(ctx context.Context, in map[string]any) (string, error) {
+			panic("c10 branch condition panic")
+		}, map[string]bool{"b": true, END: true}))
+	} else {
+		_ = g.AddEdge("a", "b")
+	}
+	_ = g.AddEdge("b", END)
+	r, err := g.Compile(ctx, WithGraphName("G"))
+	vassert(err == nil, "graph compiles")
+	opt := WithCallbacks(&c10RecE{c10Rec{id: "h", evs: &evs, closeOut: true}})
+	var rerr error
+	if vchoose("stream", 2) == 1 {
+		sr, e := r.Stream(ctx, map[string]any{"in": 1}, opt)
+		rerr = e
+		if e == nil {
+			_, rerr = sr.Recv()
+			sr.Close()
+		}
+	} else {
+		_, rerr = r.Invoke(ctx, map[string]any{"in": 1}, opt)
+	}
+	vquiesce()
+	vassert(rerr != nil, "the run fails")
+	vassert(c10Count(evs, "h", "start", "G") == 1, "the graph's handler hears exactly one start for the graph")
+	vassert(c10Count(evs, "h", "error", "G") == 1 && c10Count(evs, "h", "end", "G") == 0, "and exactly one error (no ordinary end) for the graph")
+}
